@@ -35,5 +35,32 @@ claim("C16", "global-write analysis over SSA (package-level state, process-globa
       "Decides a sufficient structural condition: no package-level variable of in_toto/internal/spiffe is written or written through outside init, no "
       "process-global mutators are called, dependency globals reached are read-only, no exported function returns package-level memory. Does not "
       "decide races inside the runtime/stdlib or on shared arguments.", "4.16")
-for i in [3,4,7,11,12,13,15,17,18,19,20]:
+claim("C03", "keyword/grammar table agreement + per-arm facts on phi edges + guarded-store analysis in the MATCH helper + error-flow",
+      "Decides: parser, interpreter and spec keyword sets agree; the parser's MATCH grammar table (lengths, keyword positions, extracted fields) and the "
+      "length-2 rule for generic rules; only DISALLOW/REQUIRE fail; the queue is live and updated on every path; each rule type consumes the right set "
+      "(created/deleted/modified defined correctly); MATCH consumes only under pattern match, destination existence, hash equality and prefix membership. "
+      "Does NOT decide agreement of the interpreter with the spec on all rule programs (set algebra, glob semantics).", "4.3")
+claim("C04", "sibling agreement of Sign/VerifySignature over SSA def-use + key-type table agreement + constant tables",
+      "Decides: sign and verify use the same bytes and the same signer/verifier constructor per wrapper; signatures accumulate in both wrappers; hex "
+      "codec pair and key id; key-type tables agree with matching constructors; wrapper detection and payload-type constant. Does not decide cryptographic soundness.", "4.4")
+claim("C07", "struct-field coverage + closure/parameter provenance chains + dominance facts + option-literal inspection",
+      "Decides: all six attribute checks are evaluated and accumulated, every constraint field is read; chain verification precedes root comparison "
+      "with the captured pools; VerifyOptions uses exactly the two pool parameters; root pool fed only from layout.RootCas; any-of loop shape; "
+      "attribute-to-certificate-field table. Does not decide the value semantics of checkCertConstraint or crypto/x509.", "4.7")
+claim("C11", "type-level JSON schema extraction compared with a frozen wire-format table + encoder provenance of the DSSE payload",
+      "Decides: the JSON view of all metadata types equals the in-toto schema (names, omitempty, kinds, no custom marshalers); the legacy signable bytes are "
+      "cjson.EncodeCanonical(Signed) unprocessed; the DSSE payload bytes come from encoding/json or from cjson only under json.Valid; strict decoding; cjson "
+      "panics recovered. Does not decide injectivity or reference equality of canonical JSON.", "4.11")
+claim("C12", "sibling cross-check of the two loaders + nil-dereference facts + static reachability of the validator family + constant tables",
+      "Decides: both loaders nil-test raw parts, share the strict decoder and fail on its error; required-field check uses the decoded type; unknown markers "
+      "fail; writer/reader key agreement; every validator (incl. inspections) is wired from ValidateMetablock; format constants; constructors initialise the "
+      "signature list. Does not decide round-trip equality or exactness of the validator.", "4.12")
+claim("C17", "guarded-store facts + reachability + return-shape analysis of the matcher",
+      "Decides only: a malformed pattern can not add to Filter's result; rule verification reaches no other matcher; error returns carry matched=false and "
+      "only the bad-pattern sentinel; whole-name exhaustion and trailing-star shape; no '/' special-casing. The glob grammar itself is NOT decided.", "4.17")
+claim("C18", "write-set / field-coverage analysis + constant regexp tree comparison + def-use single-pass check + A3 + A4",
+      "Decides: exactly the six fields are rewritten, each from itself over the whole list; pairs are (\"{\"+name+\"}\", value); name pattern equals "
+      "^[a-zA-Z0-9_-]+$ with failing mismatch; one Replacer, one Replace per original string; empty dictionary returns the input; order independence; "
+      "no write through the argument's memory. Does not decide strings.Replacer's algorithm.", "4.18")
+for i in [13,15,19,20]:
     na("C%02d" % i, "check under construction in this commit; see DESIGN.md section 4 for the planned structural clauses")
